@@ -16,9 +16,12 @@
        (py_dict_to_array_*, py_count_init_shape);
      - results of calculate / scan on one sequence object do not depend on the history of
        earlier uses of that object (py_calculate_history), under the core facts of C04/C01;
-     - the hits handed out by a scanner in any chunking are the core's hits (py_scanner_chunks);
-     - invalid arguments give PyExc, never Panic (py_invalid_args_raise), and no history
-       step panics unless the core panics (py_panic_only_from_core);
+     - a fact about the LIST model of a scanner (eager reading: the hits are fixed when the scanner is made):
+       however next() is chunked, the chunks concatenate to that list (py_scanner_chunks); the bridge to the
+       lazy Rust scanner over the live sequence is py_scanner_lazy_eq_eager;
+     - invalid arguments give PyExc, never Panic (py_invalid_args_raise), and no call made in a
+       well-labelled state panics when the core returns a value UNDER THE PRECONDITIONS THE GLUE ESTABLISHES
+       (py_panic_only_from_core over core_guarded; every guard is needed: py_no_panic_needs_every_guard_refuted);
      - the outcome classification used on the implementation is sound (check_C17_sound);
    round 3:
      - the Scanner read as lazy state over the live sequence object agrees, call by call, with the
@@ -32,10 +35,19 @@
        (py_eq_is_core_eq, py_copy_independent, py_encode_eq_core, py_dist_eq_core, py_loader_lazy,
        py_generator_args);
      - which exception class is raised where, against the `new_err` sites of the source
-       (py_exception_sites_tied, py_exception_kinds). *)
-From Coq Require Import List ZArith Bool Lia.
+       (py_exception_sites_tied, py_exception_kinds);
+   round 3, wave 3 (review):
+     - guarded totality instead of unconditional totality of the core (core_guarded, py_strict_core_is_guarded);
+     - the list-level verdicts of the driver are extracted checkers (check_hits_sound / _complete, check_items_sound);
+     - the record [core] is instantiated with the models of C04 / C01 / C02 in coq/e2e/E2EPyCore.v, where the
+       hypotheses of py_history_depends_on_text_only and py_scanner_lazy_eq_eager are discharged and calculate /
+       scan are shown to return C01's / C02's definitions (composed obligations of the thorough tier).
+   PARTIAL in: CPython / PyO3 trusted; the core operations other than stripe / configure / score / scan are
+   parameters (their link to C07, C09-C14 is by those properties' own correspondence runs); py_panic_only_from_core
+   assumes a well-labelled state (st_typed); float(int) and the other extraction rules are modelled, not verified. *)
+From Coq Require Import List ZArith Bool Lia Permutation Sorted RelationClasses.
 From LMBase Require Import ListX IEEE.
-From LMPyGlue Require Import PyGlueModel PyGlueProofs PyGlueHistory PyGlueLazy PyGlueLazyProofs PyGlueThreads PyGlueItems GenPySig.
+From LMPyGlue Require Import PyGlueModel PyGlueCheck PyGlueCheckProofs PyGlueProofs PyGlueHistory PyGlueLazy PyGlueLazyProofs PyGlueThreads PyGlueItems PyGlueUnguarded GenPySig.
 Import ListNotations.
 Open Scope Z_scope.
 
@@ -359,8 +371,10 @@ Section Entries.
     - destruct (negb _); reflexivity.
   Qed.
 
-  (* however the caller chunks the iteration (k hits at a time, then the rest), the hits
-     handed out are the core scanner's hits, in its order, none lost, none repeated *)
+  (* a lemma about the eager LIST model of a scanner (firstn / skipn): however the caller chunks the iteration
+     (k hits at a time, then the rest), the chunks concatenate to the list fixed when the scanner was made, in
+     its order, none lost, none repeated.  That the lazy Rust scanner over the live sequence object hands out
+     that list is py_scanner_lazy_eq_eager (under scan_stable, discharged for the C02 model in coq/e2e) *)
   Theorem py_scanner_chunks : forall hits ks,
     next_all CM WM SM SQ SC hits (ks ++ [None]) = hits /\
     exists rest, hits = next_all CM WM SM SQ SC hits ks ++ rest.
@@ -706,19 +720,41 @@ Section Entries.
       replace (zlist_eqb str_meme str_meme) with true by reflexivity. rewrite H2. reflexivity.
   Qed.
 
-  (* no step of any history ends in a PanicException unless the core library panics (or an
-     infallible core operation fails) on the data it is given *)
+  (* No step of any history ends in a PanicException, provided every core operation returns a value
+     UNDER THE PRECONDITION THE GLUE ESTABLISHES before it calls it (core_guarded: score / scan only on a
+     non-empty matrix and a sequence configured for it, scan / max_score without NaN, the distribution
+     calls under ensure_ordered(true), TFM-PVALUE under ensure_finite and with a finite score, p-values in
+     [0, 1], a valid base for to_scoring; score / scan only for a matrix and a sequence of the same alphabet -
+     the call is made in a state whose alphabet labels agree with the values, st_typed).  Nothing is assumed of
+     the core outside these preconditions:
+     the proof goes through the guards of the glue model one by one - delete one (py_*_guard_needed below)
+     and a core satisfying core_guarded makes the call panic. *)
   Theorem py_panic_only_from_core :
-    core_total _ _ _ _ _ _ K -> forall st c, fst (run_call K st c) <> Done _ _ _ _ _ Panic.
-  Proof. intros CT st c. apply run_call_np. exact CT. Qed.
+    forall sm_ty sq_ty wrap_ok, core_guarded _ _ _ _ _ _ K sm_ty sq_ty wrap_ok ->
+    forall st c, st_typed _ _ _ _ _ sm_ty sq_ty st -> fst (run_call K st c) <> Done _ _ _ _ _ Panic.
+  Proof. intros sm_ty sq_ty wrap_ok CG st c Hty. eapply run_call_np; eauto. Qed.
 
+  (* for a core whose promise does not depend on the alphabets, every state is well labelled: no step of any
+     history panics *)
   Corollary py_history_no_panic :
-    core_total _ _ _ _ _ _ K -> forall cs st, ~ In (Done _ _ _ _ _ Panic) (run_history K st cs).
+    forall wrap_ok, core_guarded _ _ _ _ _ _ K (fun _ _ => True) (fun _ _ => True) wrap_ok ->
+    forall cs st, ~ In (Done _ _ _ _ _ Panic) (run_history K st cs).
   Proof.
-    intros CT cs. induction cs as [|c r IH]; intros st H; [destruct H|].
+    intros wrap_ok CG cs. induction cs as [|c r IH]; intros st H; [destruct H|].
     cbn [run_history] in H. destruct (run_call K st c) as [o st'] eqn:E.
     destruct H as [H|H]; [|eapply IH; eauto].
-    apply (py_panic_only_from_core CT st c). rewrite E. exact H.
+    apply (py_panic_only_from_core _ _ wrap_ok CG st c).
+    - intros n o0 _. destruct o0; exact I.
+    - rewrite E. exact H.
+  Qed.
+
+  (* the hypothesis of rounds 1-3 (every core operation total on everything) is a special case *)
+  Corollary py_panic_only_from_core_total :
+    core_total _ _ _ _ _ _ K -> forall st c, fst (run_call K st c) <> Done _ _ _ _ _ Panic.
+  Proof.
+    intros CT st c. apply (py_panic_only_from_core (fun _ _ => True) (fun _ _ => True) (fun _ _ => True)).
+    - apply core_total_guarded. exact CT.
+    - intros n o0 _. destruct o0; exact I.
   Qed.
 End Entries.
 
@@ -802,12 +838,12 @@ Qed.
 (* ------------------------------------------------------------------ no panic inside an iteration either *)
 
 (* py_panic_only_from_core is about the call itself; the motifs of a load come out of an iteration.
-   When the core readers do not panic (over well-behaved data: core_total; over misbehaving streams
+   When the core readers do not panic (over well-behaved data: cg_read of core_guarded; over misbehaving streams
    and when driven lazily: readers_total) no next() of a loader raises a PanicException: neither the
    end of list(load(..)), nor any item of an iteration that goes on after errors, nor any item handed
    out by a lazy Loader *)
-Theorem py_items_no_panic : forall CM FM WM SM SQ SC (K : core CM FM WM SM SQ SC),
-  core_total _ _ _ _ _ _ K -> readers_total _ _ _ _ _ _ K ->
+Theorem py_items_no_panic : forall CM FM WM SM SQ SC (K : core CM FM WM SM SQ SC) sm_ty sq_ty wrap_ok,
+  core_guarded _ _ _ _ _ _ K sm_ty sq_ty wrap_ok -> readers_total _ _ _ _ _ _ K ->
   (forall file format protein r, glue_load K file format protein = Value r ->
      match r with
      | RLoad _ _ _ _ _ _ t => t <> Panic
@@ -816,9 +852,9 @@ Theorem py_items_no_panic : forall CM FM WM SM SQ SC (K : core CM FM WM SM SQ SC
      end) /\
   (forall a id calls k, ~ In Panic (fst (lazy_take K a id calls k))).
 Proof.
-  intros CM FM WM SM SQ SC K CT RT. split.
-  - intros file format protein r H. exact (load_no_item_panic _ _ _ _ _ _ K CT RT file format protein r H).
-  - intros a id calls k. apply lazy_take_np; assumption.
+  intros CM FM WM SM SQ SC K sm_ty sq_ty wrap_ok CT RT. split.
+  - intros file format protein r H. exact (load_no_item_panic _ _ _ _ _ _ K sm_ty sq_ty wrap_ok CT RT file format protein r H).
+  - intros a id calls k. eapply lazy_take_np; eassumption.
 Qed.
 
 
@@ -1048,6 +1084,60 @@ Proof.
   - congruence.
 Qed.
 
+(* str(EncodedSequence(text)) is the text: the constructor keeps what it validated, __str__ hands it back *)
+Theorem py_encoded_str_roundtrip : forall CM FM WM SM SQ SC (K : core CM FM WM SM SQ SC) st dst v p a s,
+  fst (run_call K st (KEncode dst v p)) = Done _ _ _ _ _ (Value (RObj _ _ _ _ _ (OEncoded _ _ _ _ _ a s))) ->
+  extract_str v = Value s /\
+  fst (run_call K (snd (run_call K st (KEncode dst v p))) (KStr dst)) = Done _ _ _ _ _ (Value (RStr _ _ _ _ _ s)).
+Proof.
+  intros CM FM WM SM SQ SC K st dst v p a s H. cbn [run_call] in *.
+  unfold glue_encode in *. destruct (extract_str v) as [s0|e|]; cbn [obind] in *; try (simpl in H; discriminate).
+  destruct (protein_flag p) as [a0|e|]; cbn [obind] in *; try (simpl in H; discriminate).
+  destruct (lift ValueError (c_encode_ok K a0 s0)) as [u|e|]; cbn [obind] in *; try (simpl in H; discriminate).
+  cbn [store fst snd] in *. inversion H; subst. split; [reflexivity|].
+  unfold bind_slot. cbn [lookup]. rewrite Nat.eqb_refl. reflexivity.
+Qed.
+
+(* ------------------------------------------------------------------ the list-level checkers of the driver *)
+
+(* the verdict on a scanner's hits: true EXACTLY when the two lists are permutations of each other (same
+   hits, same multiplicities) - sound, and no false alarm *)
+Theorem check_hits_sound : forall want obs, check_hits want obs = true -> Permutation want obs.
+Proof.
+  intros want obs H. unfold check_hits in H. apply hits_eqb_eq in H.
+  eapply Permutation_trans; [apply HitSort.Permuted_sort|]. rewrite H. apply Permutation_sym, HitSort.Permuted_sort.
+Qed.
+
+Theorem check_hits_complete : forall want obs, Permutation want obs -> check_hits want obs = true.
+Proof.
+  intros want obs P. unfold check_hits.
+  rewrite (sorted_perm_eq (HitSort.sort want) (HitSort.sort obs)); [apply hits_eqb_refl | | |].
+  - apply HitSort.StronglySorted_sort. exact hit_leb_trans.
+  - apply HitSort.StronglySorted_sort. exact hit_leb_trans.
+  - eapply Permutation_trans; [apply Permutation_sym, HitSort.Permuted_sort|].
+    eapply Permutation_trans; [exact P | apply HitSort.Permuted_sort].
+Qed.
+
+(* the verdict on the items of one iteration (a load over a misbehaving file object): as many items as the
+   core reader prescribes, and C17 holds of each *)
+Theorem check_items_sound : forall A (eqv : A -> A -> bool) (R : A -> A -> Prop) want obs,
+  (forall x y, eqv x y = true -> R x y) ->
+  check_items eqv want obs = true -> Forall2 (C17_holds R) want obs.
+Proof.
+  intros A eqv R want. induction want as [|w ws IH]; intros [|o os] HR H; simpl in H; try discriminate; constructor.
+  - apply andb_true_iff in H. destruct H as [H _]. eapply check_C17_sound; eauto.
+  - apply andb_true_iff in H. destruct H as [_ H]. apply IH; auto.
+Qed.
+
+Example ex_check_hits :
+  check_hits [(3, 7); (1, 5); (3, 7)] [(3, 7); (3, 7); (1, 5)] = true /\
+  check_hits [(3, 7); (1, 5)] [(3, 7); (3, 7); (1, 5)] = false /\
+  check_hits [(3, 7); (1, 5)] [(3, 7); (1, 6)] = false /\ check_hits [] [] = true /\
+  check_items Z.eqb [Value 1; PyExc OSError] [Value 1; PyExc ValueError] = true /\
+  check_items Z.eqb [Value 1; PyExc OSError] [Value 1] = false /\
+  check_items Z.eqb [Value 1] [Value 1; Value 2] = false /\ check_items Z.eqb [Value 1] [Panic] = false.
+Proof. vm_compute. repeat split; reflexivity. Qed.
+
 (* ------------------------------------------------------------------ statements pinned *)
 
 Check py_dict_to_array_spec : forall a kv p,
@@ -1055,8 +1145,10 @@ Check py_dict_to_array_spec : forall a kv p,
   length p = ksize a /\
   (forall e, In e kv -> exists ix, entry_ok a e = Value ix) /\
   (forall i, (i < ksize a)%nat -> nth i p 0 = last_value a kv i 0).
-Check py_panic_only_from_core : forall CM FM WM SM SQ SC (K : core CM FM WM SM SQ SC),
-  core_total _ _ _ _ _ _ K -> forall st c, fst (run_call K st c) <> Done _ _ _ _ _ Panic.
+Check py_panic_only_from_core : forall CM FM WM SM SQ SC (K : core CM FM WM SM SQ SC)
+    (sm_ty : SM -> abc -> Prop) (sq_ty : SQ -> abc -> Prop) (wrap_ok : SM -> SQ -> Prop),
+  core_guarded _ _ _ _ _ _ K sm_ty sq_ty wrap_ok ->
+  forall st c, st_typed _ _ _ _ _ sm_ty sq_ty st -> fst (run_call K st c) <> Done _ _ _ _ _ Panic.
 Check check_C17_sound : forall A (eqv : A -> A -> bool) (R : A -> A -> Prop) want obs,
   (forall x y, eqv x y = true -> R x y) -> check_C17 eqv want obs = true -> C17_holds R want obs.
 
@@ -1266,28 +1358,165 @@ Proof.
   - intros id j. discriminate.
 Qed.
 
-(* ... and so is core_total (a core that never panics) *)
-Definition toy_total : core Z Z Z Z (list Z * Z) Z := {|
+(* ... and so is core_guarded, by the toy core that panics when scored without the look-ahead rows *)
+Example ex_toy_guarded : core_guarded _ _ _ _ _ _ toy (fun _ _ => True) (fun _ _ => True) (fun s q => s - 1 <= snd q) /\ readers_total _ _ _ _ _ _ toy.
+Proof.
+  split; [|exact ex_toy_readers_total].
+  constructor; cbn [toy c_count_new c_encode_ok c_from_seqs c_bg_new c_stripe c_to_freq c_to_weight c_rescale
+                    c_to_scoring_base c_scoring_new c_revcomp c_max_score c_sm_cells c_configure c_score c_threshold
+                    c_max c_argmax c_dist_pvalue c_dist_score c_tfm_pvalue c_tfm_score c_scan c_dist_sf c_read];
+    try (intros; discriminate); try (intros; eexists; reflexivity).
+  - intros a s. destruct (existsb _ s); discriminate.
+  - intros q s q' H. inversion H; subst q'. cbn [snd]. lia.
+  - intros a s q _ _ _ W. apply Z.leb_le in W. rewrite W. eexists; reflexivity.
+  - intros a s q t b _ _ _ _ W _. apply Z.leb_le in W. rewrite W. eexists; reflexivity.
+  - intros f a bs [].
+Qed.
+
+
+(* float(int) of CPython: the largest int that converts is 2^1024 - 2^970 - 1 (it rounds to the largest
+   double); from 2^1024 - 2^970 on the nearest-even result is not finite and CPython raises OverflowError *)
+Example ex_extract_f64_bound :
+  F64.is_finite (F64.of_Z (2 ^ 1024 - 2 ^ 970 - 1)) = true /\ F64.is_finite (F64.of_Z (2 ^ 1024 - 2 ^ 970)) = false /\
+  extract_f64 (PInt (2 ^ 1023)) = Value 9214364837600034816 /\
+  extract_f64 (PInt (2 ^ 1024 - 2 ^ 970 - 1)) = Value 9218868437227405311 /\
+  extract_f64 (PInt (- (2 ^ 1024 - 2 ^ 970 - 1))) = Value 18442240474082181119 /\
+  extract_f64 (PInt (2 ^ 1024 - 2 ^ 970)) = PyExc OverflowError /\
+  extract_f64 (PInt (- 2 ^ 1024)) = PyExc OverflowError.
+Proof. vm_compute. repeat split; reflexivity. Qed.
+
+(* ------------------------------------------------------------------ the no-panic theorems use every guard *)
+
+(* the switchable entry points of PyGlueUnguarded.v with all switches on are the model's *)
+Theorem py_guarded_variants_are_the_model : forall CM FM WM SM SQ SC (K : core CM FM WM SM SQ SC),
+  (forall a s aq q, calculate_g K all_on a s aq q = glue_calculate K a s aq q) /\
+  (forall a s aq q t b, scan_g K all_on a s aq q t b = glue_scan K a s aq q t b) /\
+  (forall s, max_score_g K all_on s = glue_max_score K s) /\
+  (forall s, dist_g K all_on s = glue_dist K s) /\
+  (forall s x m, pvalue_g K all_on s x m = glue_pvalue K s x m) /\
+  (forall s x m, score_g K all_on s x m = glue_score K s x m) /\
+  (forall a w bg base, log_odds_g K all_on a w bg base = glue_log_odds K a w bg base).
+Proof. intros. repeat split; intros; reflexivity. Qed.
+
+(* a core that panics EXACTLY outside the preconditions of core_guarded: a scoring matrix is its cells, a
+   sequence (text, look-ahead rows), wrap_ok = "rows - 1 <= look-ahead rows" *)
+Definition strict_wrap_ok (s : list (list Z)) (q : list Z * Z) : Prop := Z.of_nat (length s) - 1 <= snd q.
+Definition strict_wrap_okb (s : list (list Z)) (q : list Z * Z) : bool := Z.of_nat (length s) - 1 <=? snd q.
+Definition neg_inf32 : Z := 4286578688.
+Definition toy_strict : core Z Z Z (list (list Z)) (list Z * Z) Z := {|
   c_count_new := c_count_new toy; c_encode_ok := c_encode_ok toy; c_from_seqs := c_from_seqs toy;
   c_to_freq := c_to_freq toy; c_to_weight := c_to_weight toy; c_bg_uniform := c_bg_uniform toy;
   c_bg_new := c_bg_new toy; c_w_bg := c_w_bg toy; c_rescale := c_rescale toy;
-  c_to_scoring_base := c_to_scoring_base toy; c_scoring_new := c_scoring_new toy; c_revcomp := c_revcomp toy;
-  c_max_score := c_max_score toy; c_sm_cells := c_sm_cells toy; c_cm_eq := Z.eqb; c_wm_eq := Z.eqb; c_sm_eq := Z.eqb;
-  c_dist_sf := c_dist_sf toy; c_stripe := c_stripe toy; c_configure := c_configure toy;
-  c_score := fun s q => COk (Z.of_nat (length (fst q)));
+  c_to_scoring_base := fun w b => if base_invalid b then CPanic else COk [[0; 0; 0; 0; neg_inf32]];
+  c_scoring_new := fun _ _ m => COk m;
+  c_revcomp := fun s => COk s;
+  c_max_score := fun s => if ordered_ok false s then COk 0 else CPanic;
+  c_sm_cells := fun s => s;
+  c_cm_eq := Z.eqb; c_wm_eq := Z.eqb; c_sm_eq := fun _ _ => true;
+  c_dist_sf := fun s => if ordered_ok true s then COk [] else CPanic;
+  c_stripe := c_stripe toy;
+  c_configure := fun q s => if sm_empty s then CPanic else COk (fst q, Z.max (snd q) (Z.of_nat (length s) - 1));
+  c_score := fun s q => if negb (sm_empty s) && strict_wrap_okb s q then COk 0 else CPanic;
   c_threshold := c_threshold toy; c_max := c_max toy; c_argmax := c_argmax toy;
-  c_dist_pvalue := c_dist_pvalue toy; c_dist_score := c_dist_score toy; c_tfm_pvalue := c_tfm_pvalue toy;
-  c_tfm_score := c_tfm_score toy;
-  c_scan := fun s q t b => COk [(0, s)];
+  c_dist_pvalue := fun s x => if ordered_ok true s && negb (f32_is_nan x) then COk 1 else CPanic;
+  c_dist_score := fun s p => if ordered_ok true s && pvalue_in_range p then COk 2 else CPanic;
+  c_tfm_pvalue := fun s x => if finite_ok s && negb (f64_is_nan x) && negb (f64_is_inf x) then COk 3 else CPanic;
+  c_tfm_score := fun s p => if finite_ok s && pvalue_in_range p then COk 4 else CPanic;
+  c_scan := fun s q t b => if ordered_ok false s && negb (sm_empty s) && strict_wrap_okb s q && negb (b =? 0)
+                           then COk [] else CPanic;
   c_read := c_read toy; c_read_faulty := c_read_faulty toy; c_lazy_next := c_lazy_next toy
 |}.
 
-Example ex_core_total : core_total _ _ _ _ _ _ toy_total /\ readers_total _ _ _ _ _ _ toy_total.
+(* core_guarded is satisfiable by a core that promises nothing outside the preconditions ... *)
+Theorem py_strict_core_is_guarded : core_guarded _ _ _ _ _ _ toy_strict (fun _ _ => True) (fun _ _ => True) strict_wrap_ok.
 Proof.
-  split.
-  - constructor; cbn; try (intros; discriminate); try (intros; eexists; reflexivity); try (intros ? ? ? []).
-    intros a s. destruct (existsb _ s); discriminate.
-  - split.
-    + intros d f a it b H. cbn in H. destruct H as [H|[H|[]]]; inversion H; discriminate.
-    + intros id j. discriminate.
+  constructor; cbn [toy_strict toy c_count_new c_encode_ok c_from_seqs c_bg_new c_stripe c_to_freq c_to_weight c_rescale
+                    c_to_scoring_base c_scoring_new c_revcomp c_max_score c_sm_cells c_configure c_score c_threshold
+                    c_max c_argmax c_dist_pvalue c_dist_score c_tfm_pvalue c_tfm_score c_scan c_dist_sf c_read];
+    try (intros; discriminate); try (intros; eexists; reflexivity).
+  - intros a s. destruct (existsb _ s); discriminate.
+  - intros w b H. rewrite H. eexists; reflexivity.
+  - intros s H. rewrite H. eexists; reflexivity.
+  - intros q s H. rewrite H. eexists; reflexivity.
+  - intros q s q' H. destruct (sm_empty s); [discriminate|]. inversion H; subst q'. unfold strict_wrap_ok. cbn [snd]. lia.
+  - intros a s q _ _ H W. rewrite H. unfold strict_wrap_okb. apply Z.leb_le in W. rewrite W. eexists; reflexivity.
+  - intros s x H N. rewrite H, N. eexists; reflexivity.
+  - intros s p H R. rewrite H, R. eexists; reflexivity.
+  - intros s x H N I. rewrite H, N, I. eexists; reflexivity.
+  - intros s p H R. rewrite H, R. eexists; reflexivity.
+  - intros a s q t b _ _ H E W B. rewrite H, E. unfold strict_wrap_okb. apply Z.leb_le in W. rewrite W.
+    assert (B' : (b =? 0) = false) by (apply Z.eqb_neq; lia). rewrite B'. eexists; reflexivity.
+  - intros s H. rewrite H. eexists; reflexivity.
+  - intros f a bs [].
 Qed.
+
+(* ... and with it every guard of the glue is needed: switch ONE validation off (the model with that guard
+   deleted) and there is an input on which this guarded-total core makes the call end in a PanicException,
+   where the model raises ValueError (or, for the configure step, returns the scores).  So "no PanicException"
+   is FALSE of the glue without any one of: ensure_not_empty, configure-before-score / -scan, ensure_ordered
+   (false / true), ensure_finite, the NaN / infinity check of pvalue(), the range check of score(), the
+   base check of log_odds(), the block size check of scan().  (py_panic_only_from_core could not be proved
+   for such a model: its proof uses each of these tests.) *)
+Definition f32_nan_bits : Z := 2143289344.
+Definition f32_posinf_bits : Z := 2139095040.
+Definition f64_nan_bits : Z := 9221120237041090560.
+Definition f64_two : Z := 4611686018427387904.
+Definition f64_posinf_bits : Z := 9218868437227405312.
+Definition ok_row : list Z := [0; 0; 0; 0; neg_inf32].
+Definition off (f : guards -> guards) : guards := f all_on.
+
+Theorem py_no_panic_needs_every_guard_refuted :
+  let K := toy_strict in
+  let q0 : list Z * Z := ([65; 67; 71; 84], 0) in
+  (* ensure_not_empty *)
+  fst (calculate_g K {| g_not_empty := false; g_configure := true; g_ordered := true; g_ordered_dist := true; g_finite := true;
+                        g_score_arg := true; g_pvalue_range := true; g_base := true |} Dna [] Dna q0) = Panic /\
+  fst (glue_calculate K Dna [] Dna q0) = PyExc ValueError /\
+  (* configure before score: a two-row matrix on a sequence without look-ahead rows *)
+  fst (calculate_g K {| g_not_empty := true; g_configure := false; g_ordered := true; g_ordered_dist := true; g_finite := true;
+                        g_score_arg := true; g_pvalue_range := true; g_base := true |} Dna [ok_row; ok_row] Dna q0) = Panic /\
+  fst (glue_calculate K Dna [ok_row; ok_row] Dna q0) = Value (OScores _ _ _ _ _ 0) /\
+  (* configure before scan *)
+  fst (scan_g K {| g_not_empty := true; g_configure := false; g_ordered := true; g_ordered_dist := true; g_finite := true;
+                   g_score_arg := true; g_pvalue_range := true; g_base := true |} Dna [ok_row; ok_row] Dna q0 0 256) = Panic /\
+  fst (glue_scan K Dna [ok_row; ok_row] Dna q0 0 256) = Value (OScanner _ _ _ _ _ []) /\
+  (* ensure_ordered(false): a NaN cell, max_score and scan *)
+  max_score_g K {| g_not_empty := true; g_configure := true; g_ordered := false; g_ordered_dist := true; g_finite := true;
+                   g_score_arg := true; g_pvalue_range := true; g_base := true |} [[0; 0; f32_nan_bits; 0; neg_inf32]] = Panic /\
+  glue_max_score K [[0; 0; f32_nan_bits; 0; neg_inf32]] = PyExc ValueError /\
+  fst (scan_g K {| g_not_empty := true; g_configure := true; g_ordered := false; g_ordered_dist := true; g_finite := true;
+                   g_score_arg := true; g_pvalue_range := true; g_base := true |} Dna [[0; 0; f32_nan_bits; 0; neg_inf32]] Dna q0 0 256) = Panic /\
+  fst (glue_scan K Dna [[0; 0; f32_nan_bits; 0; neg_inf32]] Dna q0 0 256) = PyExc ValueError /\
+  (* ensure_ordered(true): a +inf cell; a matrix without any finite cell (F28) *)
+  dist_g K {| g_not_empty := true; g_configure := true; g_ordered := true; g_ordered_dist := false; g_finite := true;
+              g_score_arg := true; g_pvalue_range := true; g_base := true |} [[0; 0; f32_posinf_bits; 0; neg_inf32]] = Panic /\
+  glue_dist K [[0; 0; f32_posinf_bits; 0; neg_inf32]] = PyExc ValueError /\
+  pvalue_g K {| g_not_empty := true; g_configure := true; g_ordered := true; g_ordered_dist := false; g_finite := true;
+                g_score_arg := true; g_pvalue_range := true; g_base := true |}
+    [[neg_inf32; neg_inf32; neg_inf32; neg_inf32; neg_inf32]] (PFloat f64_half) None = Panic /\
+  glue_pvalue K [[neg_inf32; neg_inf32; neg_inf32; neg_inf32; neg_inf32]] (PFloat f64_half) None = PyExc ValueError /\
+  (* ensure_finite: -inf symbol scores with TFM-PVALUE (F25) *)
+  pvalue_g K {| g_not_empty := true; g_configure := true; g_ordered := true; g_ordered_dist := true; g_finite := false;
+                g_score_arg := true; g_pvalue_range := true; g_base := true |}
+    [[0; neg_inf32; 0; 0; neg_inf32]] (PFloat f64_half) (Some (PStr str_tfmpvalue)) = Panic /\
+  glue_pvalue K [[0; neg_inf32; 0; 0; neg_inf32]] (PFloat f64_half) (Some (PStr str_tfmpvalue)) = PyExc ValueError /\
+  (* pvalue(NaN), pvalue(inf, "tfmpvalue") *)
+  pvalue_g K {| g_not_empty := true; g_configure := true; g_ordered := true; g_ordered_dist := true; g_finite := true;
+                g_score_arg := false; g_pvalue_range := true; g_base := true |} [ok_row] (PFloat f64_nan_bits) None = Panic /\
+  glue_pvalue K [ok_row] (PFloat f64_nan_bits) None = PyExc ValueError /\
+  pvalue_g K {| g_not_empty := true; g_configure := true; g_ordered := true; g_ordered_dist := true; g_finite := true;
+                g_score_arg := false; g_pvalue_range := true; g_base := true |} [ok_row] (PFloat f64_posinf_bits)
+    (Some (PStr str_tfmpvalue)) = Panic /\
+  glue_pvalue K [ok_row] (PFloat f64_posinf_bits) (Some (PStr str_tfmpvalue)) = PyExc ValueError /\
+  (* score(2.0) *)
+  score_g K {| g_not_empty := true; g_configure := true; g_ordered := true; g_ordered_dist := true; g_finite := true;
+               g_score_arg := true; g_pvalue_range := false; g_base := true |} [ok_row] (PFloat f64_two) None = Panic /\
+  glue_score K [ok_row] (PFloat f64_two) None = PyExc ValueError /\
+  (* log_odds(base=1.0) *)
+  log_odds_g K {| g_not_empty := true; g_configure := true; g_ordered := true; g_ordered_dist := true; g_finite := true;
+                  g_score_arg := true; g_pvalue_range := true; g_base := false |} Dna 1 None (Some (PFloat f64_one)) = Panic /\
+  glue_log_odds K Dna 1 None (Some (PFloat f64_one)) = PyExc ValueError /\
+  (* block_size = 0 (the check is made by glue_scan_args; glue_scan itself relies on it) *)
+  fst (glue_scan K Dna [ok_row] Dna q0 0 0) = Panic /\
+  glue_scan_args None (Some (PInt 0)) = PyExc ValueError.
+Proof. vm_compute. repeat split; reflexivity. Qed.
